@@ -837,6 +837,13 @@ func (x *c08Run) prepare() {
 		}
 		b.WriteString("\n")
 	}
+	// after every read: the body assigns each (lower-case) key as a template-local variable. A render works on its own
+	// copy of the template's variables, so no later read - through this template, a child or a sibling - may see it.
+	for _, k := range c.Keys {
+		if c08PlainLower(k.N) {
+			fmt.Fprintf(&b, `<template %s="probe-local"></template>`, k.N)
+		}
+	}
 	x.body = b.String()
 	if c.Ctor != "new" {
 		files := map[string]string{}
@@ -856,6 +863,15 @@ func (x *c08Run) prepare() {
 		}
 		x.fsys = memFS(files)
 	}
+}
+
+func c08PlainLower(n string) bool {
+	for i, r := range n {
+		if !(r >= 'a' && r <= 'z' || i > 0 && (r >= '0' && r <= '9' || r == '_')) {
+			return false
+		}
+	}
+	return n != ""
 }
 
 func (x *c08Run) tpl(name string) c08Tpl {
